@@ -80,3 +80,37 @@ CLAIMED["C20"] = dict(
         "constants from instances/mappings are decided by the sweep (re.compile as judge) and the correspondence."),
   note=("Trusted: as C09. Partial: sequences longer than 2 are validated, not proved. Known finding: Version without local label renders %l as None (pinned by tests)."),
   design="§6 C20")
+
+CLAIMED["C01"] = dict(
+  technique="Lean 4 proof: unbounded Serial %n round trip (regex greedy-first calculus + digit lemmas + symbolic priority loop); finite-field directive laws and multi-directive round trips by kernel evaluation",
+  text=("Theorems: for EVERY natural number n and both modes, format with %n prints str(n), parse reads it back to value n and re-rendering reproduces the text "
+        "(C01_serial_n, on the regenerated tables); the per-directive round trips of Datetime over the whole range of every finite field (C02_law_*); "
+        "kernel-evaluated format->parse->re-render round trips with value comparison for all five formatters on multi-directive formats in both modes "
+        "(leap day, year 9999, 2^53+1, epochs, unit boundaries). The general statement for all values x all separator-inert formats is decided by the "
+        "sweep, which generates formats under the property's side conditions, and by the model-vs-code correspondence."),
+  note=("Trusted: Lean kernel, axioms propext/Classical.choice/Quot.sound; extract.py; models of re/int/str/datetime/decimal validated differentially. "
+        "Partial: the regex composition (separator) lemma for arbitrary formats is not proved. Known findings (pinned by the tests): Tue/Thu names, %-H, "
+        "Version %-f, Naming title/vowel-less patterns."),
+  design="§6 C01")
+CLAIMED["C02"] = dict(
+  technique="Lean 4 proof by kernel evaluation over the whole range of every finite calendar field on the regenerated patterns; renderer table = identity pairing",
+  text=("Theorems: the regenerated renderer table pairs every Datetime directive with the strftime directive of the same letter ('-' variants = strip the "
+        "padding); remove_pad on any digit string is 'drop leading zeros, keep one'; unmentioned fields default to 1900-01-01 00:00:00.000000; for every "
+        "finite field the regenerated pattern accepts the calendar's text and the converter yields the canonical attribute text over the field's whole range "
+        "- months in 4 spellings x 12, days 1..31 in 2, hours 0..23, minutes/seconds 0..59 in 2 each, weekday numbers (2 x 7), weekday names (with the "
+        "recorded Tue/Thu exclusion), AM/PM, years incl. 1000/9999 and two-digit years; calendar facts (ordinals, week numbers) and six complete "
+        "descriptions of one instant in every date family and both clocks, both modes. Py.Cal (the model of strftime/strptime/fromisoformat) is written "
+        "from ordinal arithmetic and compared with CPython on every instant the sweep uses; the sweep builds descriptions from an independent calendar."),
+  note=("Trusted: as C01 plus harness/spec.py calendar. Partial: composition into 'every complete description of every instant' is validated, not proved. "
+        "Known findings: Tue/Thu weekday names, %-H with one digit."),
+  design="§6 C02")
+CLAIMED["C08"] = dict(
+  technique="Lean 4 proof by induction on the word list: renderers = textbook styles for all names (incl. the regex-substitution mechanism of camel/Pascal); kernel-evaluated parse/consistency/rejection instances",
+  text=("Theorem C08_render: for EVERY list of words over [a-z0-9] (any number, any length) each of the 22 directives renders exactly the textbook form "
+        "Spec.style, written from the definitions. The camel/Pascal renderers substitute (?:^|_)(.) in the snake form; pascal_join / camel_join prove that "
+        "mechanism equal to 'concatenate the capitalised words' by induction. Parse-back of all 16 full-name styles, mutual consistency with abbreviations "
+        "and rejection of a different name's abbreviation (FormatterValueError, both modes) are kernel-evaluated instances; the grids are decided by the "
+        "sweep (independent style definitions) and the correspondence."),
+  note=("Trusted: as C01. Partial: parsing for all names is validated, not proved. Known findings: title-family patterns on digit-initial words, vowel-less "
+        "patterns on names with digits (both pinned by the tests)."),
+  design="§6 C08")
